@@ -71,7 +71,7 @@ pub fn project(name: &str) -> Project {
             decoys(&mut plain, &[""]);
             let body = |head: &str, t: &str| {
                 format!(
-                    "{head}\n-TXTPP#write w1\n-w2\n+TXTPP#temp t.out\n+h\u{e9}llo {t}\n+second\n-TXTPP#include t.out\n-TXTPP#include plain.txt\n-TXTPP#run echo x >> ../m/s\ntail\n"
+                    "{head} \u{e9}\u{20ac}\u{fffd}\u{1f600}\n-TXTPP#write w1\n-w2 \u{fffd}\n+TXTPP#temp t.out\n+h\u{e9}llo {t} \u{fffd}\n+second\n-TXTPP#include t.out\n-TXTPP#include plain.txt\n-TXTPP#run echo x >> ../m/s\ntail\n"
                 )
             };
             Project {
@@ -85,7 +85,7 @@ pub fn project(name: &str) -> Project {
             tfile(&mut plain, "plain.txt", "plain\n");
             tfile(&mut plain, "gen/keep", "keep\n");
             decoys(&mut plain, &["", "gen"]);
-            let a = |x: &str| format!("{x}\nTXTPP#include b.txt\nTXTPP#after b.txt\n-TXTPP#run cat b.txt\n-TXTPP#run echo x >> ../m/a\nA2\n");
+            let a = |x: &str| format!("{x}\nTXTPP#include b.txt\nTXTPP#after b.txt\n-TXTPP#run cat b.txt\n+TXTPP#run echo x >> ../m/a\nA2\n");
             let b = |x: &str| format!("{x}\nTXTPP#include plain.txt\n-TXTPP#temp gen/b.tmp\n-tb {x}\n-\nB2\n");
             Project {
                 name: name.into(),
@@ -129,7 +129,7 @@ pub fn project(name: &str) -> Project {
         "nested" => {
             decoys(&mut plain, &["", "sub", "sub/deep"]);
             let top = |x: &str| format!("{x}\nTXTPP#include sub/mid.txt\n-TXTPP#temp sub/top.tmp\n-tt {x}\n");
-            let mid = |x: &str| format!("{x}\nTXTPP#include deep/leaf\n-TXTPP#temp ../mid.tmp\n-mm {x}\n-TXTPP#run echo x >> ../../m/mid\n");
+            let mid = |x: &str| format!("{x}\nTXTPP#include deep/leaf\n-TXTPP#temp ../mid.tmp\n-mm {x}\n+TXTPP#run echo x >> ../../m/mid\n");
             let leaf = |x: &str| format!("{x}\n-TXTPP#temp ../../leaf.tmp\n-ll {x}\n-\n");
             Project {
                 name: name.into(),
@@ -749,6 +749,9 @@ pub fn run_property(prop: &str, tier: &str) -> i32 {
             break;
         }
     }
+    if matches!(prop, "C06" | "C08" | "C09") && !rep.over_cap() {
+        byte_sweep(&rep, prop);
+    }
     if prop == "C08" {
         crate::crash::run_into(&rep);
     }
@@ -756,6 +759,22 @@ pub fn run_property(prop: &str, tier: &str) -> i32 {
 }
 
 fn search(rep: &Report, prop: &str, p: &Project, depth: usize, prefixes: bool) {
+    // the projects are hand-written: make sure they mean what they are meant to mean
+    {
+        let b = Bench::new();
+        let mut fc = FreshCache::new();
+        for (si, _) in p.sels.iter().enumerate() {
+            let want_ok = !(p.name == "errsrc" && si != 1);
+            let fr = fc.get(&b, p, &vec![0; p.sources.len()], true, si);
+            if fr.ok != want_ok {
+                rep.machinery(format!("project {} selection {si}: a pristine build gives ok={} but the project is written to give ok={want_ok}", p.name, fr.ok));
+            }
+            let fr1 = fc.get(&b, p, &vec![1; p.sources.len()], true, si);
+            if fr.ok && fr1.ok && fr.files == fr1.files {
+                rep.machinery(format!("project {}: editing the sources does not change any generated file", p.name));
+            }
+        }
+    }
     // roots: pristine tree and freshly built tree
     let ver0 = vec![0; p.sources.len()];
     let pristine = p.pristine(&ver0);
@@ -869,6 +888,169 @@ fn search(rep: &Report, prop: &str, p: &Project, depth: usize, prefixes: bool) {
     }
     let _ = std::fs::remove_dir_all(&dir);
     rep.add_in("distinct_states", &p.name, seen.len() as u64);
+}
+
+/// Every single-byte substitution (all 255 other values), deletion and insertion at every offset of every
+/// generated file of a freshly built project: verify must fail (C06), --needed must repair (C09), build must
+/// repair temp targets (C08; outputs are truncated by build anyway).
+fn byte_sweep(rep: &Report, prop: &str) {
+    let projects: Vec<&str> = if rep.thorough() { vec!["solo", "chain", "nested", "errsrc"] } else { vec!["solo", "chain"] };
+    for pname in projects {
+        let p = project(pname);
+        // a selection whose fresh build succeeds
+        let sel_i = if pname == "errsrc" { 1 } else { 0 };
+        let ver = vec![0; p.sources.len()];
+        let probe = Bench::new();
+        let mut fc = FreshCache::new();
+        let fr = fc.get(&probe, &p, &ver, true, sel_i);
+        if !fr.ok {
+            rep.machinery(format!("byte sweep: fresh build of {pname} failed: {:?}", probe.run(&p, &p.pristine(&ver), &Mode::Build, &p.sels[sel_i], true).detail));
+            continue;
+        }
+        let proc_set = p.processed(&p.sels[sel_i], &Mode::Build);
+        let targets: Vec<(String, bool)> = match prop {
+            "C06" => p.outputs_of(&proc_set).into_iter().map(|o| (o, true)).collect(),
+            "C09" => p.outputs_of(&proc_set).into_iter().map(|o| (o, true)).chain(p.temps_of(&proc_set).into_iter().map(|t| (t, false))).collect(),
+            _ => p.temps_of(&proc_set).into_iter().map(|t| (t, false)).collect(),
+        };
+        let mut built = p.pristine(&ver);
+        for (g, bytes) in &fr.files {
+            tfile(&mut built, g, bytes);
+        }
+        // work items: (target index, offset)
+        let mut items = vec![];
+        for (ti, (g, _)) in targets.iter().enumerate() {
+            let n = fr.files.get(g).map(|b| b.len()).unwrap_or(0);
+            for off in 0..=n {
+                items.push((ti, off));
+            }
+        }
+        let mode = match prop {
+            "C06" => Mode::Verify,
+            "C09" => Mode::InMemoryBuild,
+            _ => Mode::Build,
+        };
+        sharded_dyn(rep, par_threads(), |_k, _n, next, rep| {
+            let b = Bench::new();
+            b.materialize(&built);
+            let sel = &p.sels[sel_i];
+            let cfg = || Config {
+                base_dir: b.base(),
+                shell_cmd: String::new(),
+                inputs: sel.inputs.clone(),
+                recursive: sel.recursive,
+                num_threads: p.sources.len() + 4,
+                mode: mode.clone(),
+                verbosity: Verbosity::Quiet,
+                trailing_newline: true,
+            };
+            loop {
+                let i = next();
+                if i >= items.len() {
+                    break;
+                }
+                if rep.over_cap() {
+                    rep.note_cap("wall-clock cap in the single-byte sweep");
+                    break;
+                }
+                let (ti, off) = items[i];
+                let (g, _is_out) = &targets[ti];
+                let orig = fr.files[g].clone();
+                let path = b.base().join(g);
+                let mut variants: Vec<(String, Vec<u8>)> = vec![];
+                if off < orig.len() {
+                    for v in 0..=255u8 {
+                        if v != orig[off] {
+                            let mut x = orig.clone();
+                            x[off] = v;
+                            variants.push((format!("byte {off} := 0x{v:02x}"), x));
+                        }
+                    }
+                    let mut x = orig.clone();
+                    x.remove(off);
+                    variants.push((format!("byte {off} deleted"), x));
+                }
+                for v in [b'Z', 0x80, b'\n'] {
+                    let mut x = orig.clone();
+                    x.insert(off, v);
+                    variants.push((format!("0x{v:02x} inserted at {off}"), x));
+                }
+                for (what, bytes) in variants {
+                    if bytes == orig {
+                        continue;
+                    }
+                    std::fs::write(&path, &bytes).unwrap();
+                    let r = run_canonical(cfg());
+                    rep.tv(1);
+                    rep.tr(1);
+                    rep.add_in("nontrivial", "single_byte_tamperings", 1);
+                    let now = std::fs::read(&path).ok();
+                    let bad = match prop {
+                        "C06" => {
+                            if r.verdict.is_ok() || !r.clean() {
+                                Some(format!("verify {} although {g} differs from the fresh output ({what})", r.verdict.kind()))
+                            } else if now.as_deref() != Some(&bytes[..]) {
+                                Some(format!("verify modified {g} ({what})"))
+                            } else {
+                                None
+                            }
+                        }
+                        _ => {
+                            if !r.verdict.is_ok() || !r.clean() {
+                                Some(format!("{:?} {} with {g} tampered ({what}): {}", mode, r.verdict.kind(), crate::sched::first_lines(&r.verdict.detail(), 3)))
+                            } else if now.as_deref() != Some(&orig[..]) {
+                                Some(format!("{:?} left {g} as {:?} ({what}), a fresh build writes {:?}", mode, now.as_ref().map(|x| show(x)), show(&orig)))
+                            } else {
+                                None
+                            }
+                        }
+                    };
+                    if let Some(msg) = bad {
+                        rep.violate(
+                            "single-byte-difference-not-noticed",
+                            format!("[{pname}] {msg}"),
+                            json!({"engine": "H-sweep", "prop": prop, "project": pname, "sel": sel_i, "path": g, "bytes_b64": b64(&bytes), "what": what}),
+                        );
+                        // restore a correct tree for the following cases
+                        b.materialize(&built);
+                    }
+                }
+                std::fs::write(&path, &orig).unwrap();
+            }
+        });
+    }
+}
+
+pub fn replay_sweep(v: &Value) -> bool {
+    let prop = v["prop"].as_str().unwrap_or("C06");
+    let p = project(v["project"].as_str().unwrap_or("solo"));
+    let sel_i = v["sel"].as_u64().unwrap_or(0) as usize;
+    let b = Bench::new();
+    let mut fc = FreshCache::new();
+    let ver = vec![0; p.sources.len()];
+    let fr = fc.get(&b, &p, &ver, true, sel_i);
+    let mut built = p.pristine(&ver);
+    for (g, bytes) in &fr.files {
+        tfile(&mut built, g, bytes);
+    }
+    let g = v["path"].as_str().unwrap_or("");
+    let bytes = unb64(v["bytes_b64"].as_str().unwrap_or(""));
+    tfile(&mut built, g, &bytes);
+    let mode = match prop {
+        "C06" => Mode::Verify,
+        "C09" => Mode::InMemoryBuild,
+        _ => Mode::Build,
+    };
+    let o = b.run(&p, &built, &mode, &p.sels[sel_i], true);
+    let now = match o.after.get(g) {
+        Some(Meta { node: Node::File(x), .. }) => Some(x.clone()),
+        _ => None,
+    };
+    println!("replay: {g} := {:?} ({}); {:?} -> ok={} ; file now {:?}", show(&bytes), v["what"], mode, o.ok, now.as_ref().map(|x| show(x)));
+    match prop {
+        "C06" => o.ok || now.as_deref() != Some(&bytes[..]),
+        _ => !o.ok || now.as_ref() != fr.files.get(g),
+    }
 }
 
 fn tree_json_compact(t: &Tree) -> Value {
